@@ -10,6 +10,7 @@ import (
 	"verifharness/internal/core"
 	"verifharness/internal/prng"
 	"verifharness/internal/refconv"
+	"verifharness/internal/reg"
 )
 
 // C15 — QoS rules and QoS flow descriptions: total parser, exact round trip.
@@ -359,6 +360,43 @@ func libParam(p refconv.QParam) nasType.QoSFlowParameter {
 	return nil
 }
 
+// qosParamValue picks the sz octets of a parameter value: random octets, or a number
+// written big-endian in the last one or two octets — 0, 1, the maximum, or one of
+// the integer literals the QoS sources of the tree mention (and its neighbours).
+func qosParamValue(r *prng.Rand, sz int) []byte {
+	val := r.Bytes(sz)
+	if sz == 0 || r.Bool() {
+		return val
+	}
+	w := sz
+	if w > 2 {
+		w = 2
+	}
+	max := uint64(1)<<(8*uint(w)) - 1
+	cands := []uint64{0, 1, max}
+	if r.Bool() {
+		var lits []uint64
+		for _, f := range []string{"nasType/qos_flow_desc.go", "nasType/qos_rule.go"} {
+			for _, v := range reg.DictFileInts[f] {
+				if v <= max && (w == 1 || v > 255) {
+					lits = append(lits, v)
+				}
+			}
+		}
+		if len(lits) > 0 {
+			cands = lits
+		}
+	}
+	v := cands[r.Intn(len(cands))]
+	if r.Chance(1, 4) {
+		v = (v + uint64(r.Intn(3)) - 1) & max
+	}
+	for i := 0; i < w; i++ {
+		val[sz-1-i] = byte(v >> (8 * uint(i)))
+	}
+	return val
+}
+
 func genDescs(r *prng.Rand, n int) []refconv.QDesc {
 	var out []refconv.QDesc
 	for i := 0; i < n; i++ {
@@ -373,7 +411,7 @@ func genDescs(r *prng.Rand, n int) []refconv.QDesc {
 		for j := 0; j < np; j++ {
 			id := byte(1 + (i+j+r.Intn(2))%7)
 			sz, _ := refconv.ParamSize(id)
-			d.Params = append(d.Params, refconv.QParam{ID: id, Val: r.Bytes(sz)})
+			d.Params = append(d.Params, refconv.QParam{ID: id, Val: qosParamValue(r, sz)})
 		}
 		out = append(out, d)
 	}
